@@ -25,7 +25,8 @@ def RULE(tier):
     return ("streams of 1-%d events built from %d event shapes (id, event, 1-2 data lines incl. empty and colon-less, retry, comment, "
             "unknown field); line terminators: every assignment of CRLF/LF/CR per line for single events, uniform and every single "
             "deviation from uniform for multi-event streams; delivery: close-delimited and chunked, every partition with <= %d cuts "
-            "(single events) / <= 1 cut (multi) and byte-by-byte. Oracle: Respondent.events/.leid/.retry equal the WHATWG reference "
+            "(single events) / <= 1 cut (multi) and byte-by-byte; plus resumption: every stream cut inside an unfinished line (6 kinds of tail), "
+            "followed on a new connection by every stream, parsed by the same Respondent (uniform terminators). Oracle: Respondent.events/.leid/.retry equal the WHATWG reference "
             "parser's dispatched events, last id, retry. One case = (stream, terminators, framing, partition)."
             % ((2, len(SHAPES), 2) if tier == "quick" else (3, len(SHAPES), 3)))
 
@@ -42,6 +43,7 @@ def jobs(tier):
     js += [("two", i, j) for i, j in pairs]
     if tier != "quick":
         js += [("three", i, j, k) for i in range(5) for j in range(5, 9) for k in (0, 2, 12)]
+    js += [("resume", i) for i in range(len(SHAPES))]
     return js
 
 
@@ -106,6 +108,20 @@ def deliver(stream, cuts, chunked):
     return list(m[16]), m[17], m[18], None
 
 
+def deliver_wirecut(stream, c):
+    """the stream as ONE chunk of a chunked body, the wire bytes of the body cut at position c (also inside the chunk framing)"""
+    part = b"%x\r\n" % len(stream) + stream + b"\r\n0\r\n\r\n"
+    wire = [HEAD + b"Transfer-Encoding: chunked\r\n\r\n" + part[:c], part[c:]]
+    res, left, exc = httpgen.drive("rsp", wire, close_at_end=False)
+    if exc:
+        return None, None, None, exc
+    snap = [m for m in res if m[0] == "rsp"] or [m[1:] for m in res if m[0] == "partial"]
+    if not snap:
+        return [], None, None, ("no-result", "")
+    m = snap[-1]
+    return list(m[16]), m[17], m[18], None
+
+
 def norm_events(evs):
     return [((i or ""), n, d) for i, n, d in evs]
 
@@ -113,7 +129,10 @@ def norm_events(evs):
 def check(shapes_idx, assign, cuts, chunked):
     stream, nlines = build([SHAPES[i] for i in shapes_idx], assign)
     want_ev, want_id, want_retry = refsse.parse(stream)
-    evs, leid, retry, exc = deliver(stream, cuts, chunked)
+    if chunked == 2:       # one chunk, the wire cut at cuts[0] (framing included)
+        evs, leid, retry, exc = deliver_wirecut(stream, cuts[0])
+    else:
+        evs, leid, retry, exc = deliver(stream, cuts, chunked)
     term = "uniform-" + ["crlf", "lf", "cr"][assign[0]] if len(set(assign)) == 1 else "mixed"
     frag = "oneshot" if not cuts else ("bytewise" if len(cuts) == len(stream) - 1 else "cut")
     ctx = "%s:%s" % (term, "oneshot" if frag == "oneshot" else "fragmented")
@@ -135,8 +154,46 @@ def check(shapes_idx, assign, cuts, chunked):
     return v
 
 
+PARTIALS = [b"data: par", b"id: 9", b"da", b"data: x\r", b": comm", b"event: ev\ndata: half"]     # what the cut leaves unfinished
+
+
+def check_resume(i, j, e, pi):
+    """stream i ends in an unfinished line when the connection is cut; the client reconnects and stream j arrives, parsed by the
+    same Respondent: the unfinished tail is discarded (WHATWG: at end of stream incomplete data is thrown away), the events are
+    those of stream i followed by those of stream j"""
+    first, _ = build([SHAPES[i]], (e,) * (len(SHAPES[i]) + 1))
+    second, _ = build([SHAPES[j]], (e,) * (len(SHAPES[j]) + 1))
+    # each stream is interpreted on its own (WHATWG: the buffers, including the last event ID buffer, are initialised per stream)
+    want_ev = refsse.parse(first)[0] + refsse.parse(second)[0]
+    wire = [HEAD + b"\r\n" + first + PARTIALS[pi], HEAD + b"\r\n" + second]
+    res, left, exc = httpgen.drive("rsp", wire, close_at_end=True, close_after=0)
+    ctx = "uniform-" + ["crlf", "lf", "cr"][e]
+    if exc:
+        return [("sse-raises:%s:resumed:%s" % (exc[0], ctx), "streams %r / %r raised %r" % (first + PARTIALS[pi], second, exc))]
+    snap = [m for m in res if m[0] == "rsp"] or [m[1:] for m in res if m[0] == "partial"]
+    if not snap:
+        return [("sse-events:missing:resumed:%s" % ctx, "no result for %r then %r" % (first + PARTIALS[pi], second))]
+    m = snap[-1]
+    got, leid, retry = norm_events(list(m[16])), m[17], m[18]
+    v = []
+    what = "stream %r cut there, then on the new connection %r" % (first + PARTIALS[pi], second)
+    if got != want_ev:
+        kind = "missing" if len(got) < len(want_ev) else "extra" if len(got) > len(want_ev) else "content"
+        v.append(("sse-events:%s:resumed:%s" % (kind, ctx), "%s: events %r, reference %r" % (what, got, want_ev)))
+    return v      # (what last id / retry a resumed client should end up with is not compared: the statement does not say)
+
+
 def run_job(job, tier, seed):
     acc = Acc(job)
+    if job[0] == "resume":
+        i = job[1]
+        for j in range(len(SHAPES)):
+            for e in range(3):
+                for pi in range(len(PARTIALS)):
+                    viols = check_resume(i, j, e, pi)
+                    acc.case(["resume", i, j, e, pi], "ok" if not viols else viols[0][0], viols) if (viols or (j + e + pi) % 7 == 0) else acc.bulk(1, 1)
+        acc.r.obs.add(hash(("resume", i)))
+        return acc.result()
     idx = tuple(job[1:])
     nlines = sum(len(SHAPES[i]) + 1 for i in idx)
     maxcuts = (2 if tier == "quick" else 3) if len(idx) == 1 else 1
@@ -152,6 +209,11 @@ def run_job(job, tier, seed):
         if maxcuts >= 3 and n <= 22:
             cutsets += [(a, b, c) for a in range(1, n) for b in range(a + 1, n) for c in range(b + 1, n)]
         cutsets.append(tuple(range(1, n)))
+        if len(set(assign)) == 1:      # uniform terminators: the chunked wire cut at every position, chunk framing included
+            for c in range(1, len(b"%x\r\n" % n) + n + 7):
+                viols = check(idx, assign, (c,), 2)
+                cnt += 1
+                acc.case([list(idx), list(assign), [c], 2], "ok" if not viols else viols[0][0], viols) if (viols or cnt % 4999 == 1) else acc.bulk(1, 1)
         for cuts in cutsets:
             for chunked in (False, True):
                 viols = check(idx, assign, cuts, chunked)
@@ -166,5 +228,7 @@ def run_job(job, tier, seed):
 
 
 def replay(job, case):
+    if case and case[0] == "resume":
+        return check_resume(*[int(x) for x in case[1:]])
     idx, assign, cuts, chunked = case
-    return check(tuple(idx), tuple(assign), tuple(cuts), bool(chunked))
+    return check(tuple(idx), tuple(assign), tuple(cuts), chunked if chunked == 2 else bool(chunked))
